@@ -45,7 +45,7 @@ def budget(tier):
 @st.composite
 def pair_case(draw, max_dims=3):
     names = gen.NAMES
-    a = draw(gen.array_spec(min_dims=0, max_dims=max_dims, min_size=1, max_size=3, vks="fi", names=names))
+    a = draw(gen.array_spec(min_dims=0, max_dims=max_dims, min_size=1, max_size=3, vks="fi", names=names, nan=True))
     a["base"] = draw(st.integers(2, 6))
     # dims of b: some of a's, some new, free order
     shared = [d for d in a["dims"] if draw(st.booleans())]
@@ -66,7 +66,10 @@ def pair_case(draw, max_dims=3):
             blabels.append(labs)
         else:
             blabels.append(draw(gen.labels(draw(st.integers(1, 3)))))
-    b = {"dims": bdims, "labels": blabels, "vk": draw(st.sampled_from("fi")), "base": draw(st.integers(2, 6))}
+    b = {"dims": bdims, "labels": blabels, "vk": draw(st.sampled_from("fi")), "base": draw(st.integers(2, 6)), "hist": draw(gen.history(blabels))}
+    nb = int(np.prod([len(l) for l in blabels])) if blabels else 1
+    if b["vk"] == "f" and draw(st.integers(0, 3)) == 0:
+        b["nan"] = draw(st.lists(st.integers(0, nb - 1), min_size=1, max_size=max(1, nb // 2), unique=True))
     op = draw(st.sampled_from(list(OPS)))
     if op == "**":
         # keep powers representable: small injective float values
@@ -74,6 +77,7 @@ def pair_case(draw, max_dims=3):
             n = int(np.prod([len(l) for l in s["labels"]])) if s["labels"] else 1
             s["vk"] = "f"
             s["vals"] = [2.0 + 0.25 * k for k in range(n)]
+            s.pop("nan", None)
     return {"mode": "pair", "a": a, "b": b, "op": op}
 
 
